@@ -222,6 +222,7 @@ type Gen struct {
 	curPos  token.Pos
 	bodyless bool
 	strConsts map[string]Val
+	callOrd map[*ssa.Call]int
 	cellAddr map[*ssa.Alloc]*Addr
 	inlineStack []*ssa.Function
 	inlineRets []inlineRet
